@@ -117,6 +117,29 @@ class C18(AstKindProp):
                     if kind == "function":
                         opts.update({"inline_types": True, "indent_level": r.choice([0, 1, 2])})
                     self.cases.append({"width": w, "kind": kind, "ir": irutil.ir_to_json(irj), "opts": opts, "sweep": off})
+        # deterministic sweeps of two more break situations: (a) one unbreakable token whose length slides up to the
+        # width (it must not be cut), (b) a free-standing dash ("lo - hi") sliding across the end of a wrapped line
+        for w in sweep_widths:
+            weff = w or 100
+            for kind in ("class", "rest", "function"):
+                for off in range(0, 15):
+                    r = run.sub_rng("token", w, kind, off)
+                    nm = r.choice(G.NAMES)
+                    tok = "/".join("seg%02d" % k for k in range(40))[: max(8, weff - off)]
+                    params = [(nm, {"typ": "str", "doc": "the path " + tok + " is used"})]
+                    opts = {"emit_default_doc": False}
+                    if kind == "function":
+                        opts.update({"inline_types": True, "indent_level": r.choice([0, 1, 2])})
+                    self.cases.append({"width": w, "kind": kind, "ir": irutil.ir_to_json({"doc": "Summary line.", "params": params, "returns": None}), "opts": opts, "sweep": 100 + off})
+                for off in range(0, 14):
+                    r = run.sub_rng("dash", w, kind, off)
+                    nm = r.choice(G.NAMES)
+                    head = exact_prose(r, max(3, weff - len(nm) - 18 - off)).rstrip(".")
+                    params = [(nm, {"typ": "int", "doc": head + " a4 - alpha_limit_028 and b7 - beta_limit_113 apply"})]
+                    opts = {"emit_default_doc": False}
+                    if kind == "function":
+                        opts.update({"inline_types": True, "indent_level": r.choice([0, 1, 2])})
+                    self.cases.append({"width": w, "kind": kind, "ir": irutil.ir_to_json({"doc": "Summary line.", "params": params, "returns": None}), "opts": opts, "sweep": 200 + off})
         # one sub-process per width
         by_w = {}
         for idx, c in enumerate(self.cases):
